@@ -262,7 +262,7 @@ def run(tier):
             text = f.read()
         # mount the file's content as its own module file: the header `#![allow(..)]` must stay the first line
         src = "#[path = \"%s\"]\npub mod generated;\npub use generated::*;\n" % outp
-        c["case"] = farm_c.add(Case(src + "// " + str(hash(text)) + "\n", [("op", "Op")], resp=True, vars_=True))
+        c["case"] = farm_c.add(Case(src + "// " + str(hash(text)) + "\n", [("op", "Op")], resp=True, vars_=True), mounts=[outp])
     farm_c.build()
     for c in cli_cases:
         if c.get("case"):
